@@ -673,6 +673,49 @@ def _guarded_in_expr(ctx, fn, d, v) -> bool:
     return False
 
 
+def rule_workers_validated(ctx, rep):
+    from ..cli_model import option as cli_option
+
+    rep.rule(
+        "R-WORKERS-VALIDATED",
+        "a value the user gives on the command line reaches a library call that rejects part of its range only after that part has been "
+        "rejected as an argument error (status 3) or clamped: `ThreadPoolExecutor(max_workers=N)` raises ValueError for N <= 0, so once the pool "
+        "size derives from --max-workers either the option's converter refuses values below 1 or the value is clamped (`max(1, n)`, `n or None`) "
+        "-- otherwise `--max-workers 0` ends a run with a traceback and status 1, a status the documentation gives to missing inputs",
+        min_instances=1,
+    )
+    from ..sites import apply_fn
+
+    fn = apply_fn(ctx)
+    r = ctx.resolver(fn)
+    pools = [c for c in ast.walk(fn.node) if isinstance(c, ast.Call) and (last_attr(c.func) or "").endswith("PoolExecutor")]
+    if not pools:
+        raise AnalysisError("the scheduling function no longer creates an executor pool")
+    for c in pools:
+        mw = next((k.value for k in c.keywords if k.arg == "max_workers"), c.args[0] if c.args else None)
+        if mw is None:
+            rep.instance("R-WORKERS-VALIDATED", fn.qname, fn.loc(c), True, detail="pool size not taken from the command line (library default)")
+            continue
+        v = r.expand(mw) if isinstance(mw, ast.Name) else mw
+        from_cli = any(isinstance(x, ast.Attribute) and x.attr == "max_workers" for x in ast.walk(v))
+        if not from_cli:
+            rep.instance("R-WORKERS-VALIDATED", fn.qname, fn.loc(c), True, detail=f"pool size `{unparse(v)[:30]}` does not come from --max-workers")
+            continue
+        clamped = any(isinstance(x, ast.Call) and call_name(x) == "max" and any(isinstance(a, ast.Constant) and isinstance(a.value, int) and a.value >= 1 for a in x.args) for x in ast.walk(v)) \
+            or (isinstance(v, ast.BoolOp) and isinstance(v.op, ast.Or) and isinstance(v.values[-1], ast.Constant) and v.values[-1].value is None
+                and not any(isinstance(x, ast.Call) for x in ast.walk(v.values[0])))
+        o = cli_option(ctx, "--max-workers")
+        conv = o.kw.get("type") if o is not None else None
+        q = ctx.prog.resolve_expr_name(ctx.prog.module("codemodder.cli"), conv) if isinstance(conv, (ast.Name, ast.Attribute)) else None
+        cf = ctx.prog.functions.get(q) if q else None
+        validated = cf is not None and any(isinstance(x, ast.Raise) for x in walk_no_nested(cf.node)) or (o is not None and "choices" in o.kw)
+        # `n or None` only protects 0, not negatives: require max(1, ...) or a validating converter for full credit
+        ok = validated or any(isinstance(x, ast.Call) and call_name(x) == "max" for x in ast.walk(v))
+        rep.check("R-WORKERS-VALIDATED", fn.qname, fn.loc(c), ok, "max_workers-range",
+                  f"`{unparse(c)[:60]}` takes its size from --max-workers, whose converter is `{unparse(conv) if conv is not None else 'none'}` (any integer): "
+                  "0 or a negative value raises ValueError inside the run (traceback, status 1) instead of being refused as an argument (status 3)")
+
+
 def rule_output_path_owner(ctx, rep):
     rep.rule(
         "R-OUTPUT-PATH-OWNER",
@@ -761,6 +804,7 @@ def check(ctx, rep):
     rule_ai_config(ctx, rep)
     rule_report_try_minimal(ctx, rep)
     rule_output_path_owner(ctx, rep)
+    rule_workers_validated(ctx, rep)
     rule_optional_element_deref(ctx, rep)
     rule_arg_converters(ctx, rep)
     rule_parser_plain(ctx, rep)
